@@ -97,9 +97,14 @@ claim("C19", "proof",
       "Theorems over the whole option-set space (case analysis, not enumeration): decision f = reject ⇔ conflict f (the statement's list, clause by "
       "clause); accepted ⇔ no conflict; failFirst ⇔ -e with -j/-p and neither -r nor --json; implied join; engine choice; -z/--fallback-oob never "
       "matter. Correspondence: the REAL binary run on the option sets (quick: seeded sample of 20 000 sets × 2 probes + re-orderings; thorough: all "
-      "276 480 sets: every combination of the options that can matter, -z / --fallback-oob / unknown argument drawn per set), status/stdout against the model's decision and against the statement.",
-      TIE + " argv → option set is pico_args (trusted). Don't-cares: -l with -e; default bounds with -m (data-dependent failure, C15).",
-      "Lean 4 decision-table theorem (cases + grind) + exhaustive CLI correspondence", "§4 C19")
+      "276 480 sets: every combination of the options that can matter, -z / --fallback-oob / unknown argument drawn per set), status/stdout against the model's decision and against the statement; "
+      "-M on every list of 1-3 bounds over sides {open,1,2,3,-1}, accepted iff strictly ascending. argv → option set is modelled too (Model/Argv.lean: pico_args 0.5 with "
+      "short-space-opt/combined-flags/eq-separator + parse_args step by step, 405 lines) with theorems in Props/C19Argv (177): parseArgv never panics; on well-formed "
+      "command lines it equals a table lookup and is invariant under every permutation of the option groups (parseArgv_perm); on canonical command lines it rejects "
+      "iff decision (flagsOf …) = reject (parseArgv_canonArgv_decision). K-argv: random argument vectors in every spelling pico_args accepts vs the real binary.",
+      TIE + " Don't-cares: -l with -e; default bounds with -m (data-dependent failure, C15). Non-canonical spellings (glued values, clusters, repeated options) are "
+      "covered by the K-argv differential only.",
+      "Lean 4 decision-table theorem + argv-parser model with permutation-invariance theorem + exhaustive CLI correspondence", "§4 C19")
 
 claim("C05", "proof",
       "Theorems: the one-line-at-a-time algorithm equals specLines (output and status) for every input other than the empty one or a lone EOL and every "
@@ -113,8 +118,8 @@ claim("C12", "proof",
       "parser accepts (parsing itself never panics, for every string), every option set, every input and segmentation, main's dispatch ends with status ok or fail — "
       "general engine (any delimiter incl. empty, all flags), character mode, fast lane, bytes, both -l algorithms, -M; regex delimiters under the find_iter contract. "
       "Range expansion is bounded by the record length, not the index value; fuel of the trim loop provably suffices. The implementation oracle carries what the model "
-      "abstracts: ALL bounds strings ≤ L symbols × every mode, a boundary stream for the scanning loops, and adversarial argv × stdin on the debug and release binaries "
-      "(timeout 10 s, RLIMIT_AS 1 GiB).",
+      "abstracts: ALL bounds strings ≤ L symbols × every mode, a boundary stream for the scanning loops (also as 2nd/3rd record after records with several fields), random argument vectors against the argv model (K-argv), and adversarial argv × stdin on the debug and release binaries "
+      "(timeout 10 s, address space of each child limited to 1 GiB).",
       TIE + " Panic/hang sites inside third-party crates (regex, serde_json, bstr) are reachable only by the implementation oracle.",
       "Lean 4 theorems (unreachability of modelled panic sites, end to end from the parser) + adversarial CLI / in-process exploration", "§4 C12")
 claim("C14", "proof",
@@ -134,12 +139,12 @@ claim("C18", "proof",
       TIE, "Lean 4 language-recognition theorem (scanner with look-ahead = lexer+parser, simulation proof) + bounded-exhaustive correspondence", "§4 C18")
 
 claim("C16", "proof",
-      "Theorems (23) for ANY matcher satisfying the find_iter contract (sorted, non-overlapping, in range): regexCut_eq_spec / regexRun_eq_spec — without -r/-p the engine equals a "
+      "Theorems (60) for ANY matcher satisfying the find_iter contract (sorted, non-overlapping, in range): regexCut_eq_spec / regexRun_eq_spec — without -r/-p the engine equals a "
       "specification over the match lists (fields = gaps between matches, -g = gaps between greedy matches, separators kept verbatim, -t removes only the greedy match touching the chosen "
-      "end, -s, -m, fallbacks); with -r R (no -g) under slice-stability of the matcher the separators are rendered as R verbatim; -p -r R equals the LITERAL engine on the rewritten record "
+      "end, -s, -m, fallbacks); with -r R under slice-stability of the matcher the separators are rendered as R verbatim (with -g: regexCut_replace_greedy_eq_spec, under the extra hypothesis GreedyTiled — every (RE)+ match is tiled by the RE matches inside it — proved for one-byte expressions of the Lean matcher and measured on the real engine's match lists in every run); -p -r R equals the LITERAL engine on the rewritten record "
       "(hence the literal refinement theorem). The executable Lean matcher for the family is proved to satisfy the contract. Direct oracle: the statement executed over match positions of "
       "an INDEPENDENT engine (python re), in-process and on the real binary; the real engine's match positions compared with python's and the Lean matcher's on every record.",
-      TIE + " Partial by nature: the regex crate is outside the model; slice-stability and 'greedy = runs of normal matches' are validated by testing, not proved; -g with -r is unproved (tested); "
+      TIE + " Partial by nature: the regex crate is outside the model; slice-stability and 'greedy = runs of normal matches' are validated by testing, not proved for the real engine; "
       "anchors, look-around, empty matches, class ranges are outside the family.",
       "Lean 4 refinement theorems parametric in the matcher + oracle over an independent regex engine + matcher correspondence", "§4 C16")
 claim("C17", "other",
